@@ -42,7 +42,7 @@ def dict_blank(op):
 
 def judge(ck, runs, nmax=12):
     recfile = ck.scratch.path("qs.ndjson")
-    write_ndjson(recfile, [{"ev": r["ev"], "strict": 1 if r["h"].get("strict") else 0} for r in runs])
+    write_ndjson(recfile, [{"ev": r["ev"], "strict": 1 if r["h"].get("strict") else 0, "log": 1 if any(e["op"] == "log" for e in r["ev"]) else 0} for r in runs])
     cfg = ck.scratch.path("QSendTrace.cfg")
     with open(cfg, "w") as f:
         f.write("SPECIFICATION Spec\nCONSTANT NMAX = %d\nINVARIANT Inv\n" % nmax)
@@ -122,3 +122,14 @@ def report(ck, prop, runs, bad, accept=None):
               "messages": [{"body": m["body"].decode("latin1"), "sender": m["sender"].decode("latin1"), "rcpts": [x.decode("latin1") for x in m["rcpts"]]} for m in h["messages"]]}
         ck.violation(key, "history %s: event %d %s %s; last events: %s" % (h.get("id"), pos, why, detail, describe(r, pos, 6)), {"history": hj, "events": r["ev"][max(0, pos - 30):pos]})
     ck.cov["verdicts_of_other_properties_seen"] = other
+    # a history is judged up to its first objection: objections that belong to another property end it early.  On the unchanged tree
+    # the only ones expected are the recorded known findings; anything else is shown so that it gets looked at (it is either a
+    # violation the owning check should report too, or a flaw of a monitor clause)
+    unexplained = {}
+    for why, cnt in other.items():
+        p = why.split(":")[0]
+        if not ck.kf.match(p, why + ":hist=x"):
+            unexplained[why] = cnt
+    ck.cov["unexplained_verdicts_of_other_properties"] = unexplained
+    if unexplained:
+        log("NOTE %s: histories ended early on objections of other properties that are not known findings: %s" % (prop, unexplained))
